@@ -3,6 +3,8 @@ CONSTANTS
   T = 2
   MaxDgrams = 3
   UseMutex = FALSE
+  RearmWindow = FALSE
+  HandOff = FALSE
 INVARIANT NoRace
 INVARIANT ResultComplete
 INVARIANT ResultSound
